@@ -1,3 +1,4 @@
+import numpy as np
 from ....core.constraint import (
     GaussianMatrixParameterConstraint,
     GaussianSimpleParameterConstraint,
@@ -38,13 +39,13 @@ class ConstraintYamlWriter(YamlWriterMixin, ConstraintDReprBase):
                     _yaml_doc["matrix"] = constraint.cov_mat_rel.tolist()
                 else:
                     _yaml_doc["matrix"] = constraint.cor_mat.tolist()
-                    _yaml_doc["uncertainties"] = constraint.uncertainties_rel.tolist()
+                    _yaml_doc["uncertainties"] = np.asarray(constraint.uncertainties_rel).tolist()
             else:
                 if constraint.matrix_type == "cov":
                     _yaml_doc["matrix"] = constraint.cov_mat.tolist()
                 else:
                     _yaml_doc["matrix"] = constraint.cor_mat.tolist()
-                    _yaml_doc["uncertainties"] = constraint.uncertainties.tolist()
+                    _yaml_doc["uncertainties"] = np.asarray(constraint.uncertainties).tolist()
             _yaml_doc["relative"] = constraint.relative
             _yaml_doc["matrix_type"] = constraint.matrix_type
         else:
